@@ -57,6 +57,27 @@ def _writers(ctx, attr):
 
 
 def check(ctx, rep):
+    # `all` lists every trap (RENUM remaps the traps it finds there, the dispatcher orders them by it): each way of ordering
+    # the key handlers is a permutation of the whole key list -- its slices partition the list
+    rs = ctx.fn(BE + ':BasicEvents.reset')
+    n_ord = 0
+    for a in own_nodes(rs):
+        if isinstance(a, ast.Assign) and norm(a.targets[0]) == 'ordered_keys':
+            n_ord += 1
+            parts = []
+            ok = True
+            for x in ast.walk(a.value):
+                if isinstance(x, ast.Subscript) and norm(x.value) == 'self.key' and isinstance(x.slice, ast.Slice):
+                    lo = ctx.fold(x.slice.lower) if x.slice.lower is not None else 0
+                    hi = ctx.fold(x.slice.upper) if x.slice.upper is not None else None
+                    parts.append((lo, hi))
+                elif isinstance(x, ast.Subscript) and norm(x.value) == 'self.key':
+                    ok = False
+            parts.sort(key=lambda p_: p_[0])
+            cover = ok and bool(parts) and parts[0][0] == 0 and parts[-1][1] is None and all(parts[i][1] == parts[i + 1][0] for i in range(len(parts) - 1))
+            rep.ob('all-events.every-key-handler-listed', 'BasicEvents.reset: %s' % short(a, 70), cover,
+                   'the slices %r do not partition the key list: a key handler is missing from (or twice in) `all`, its trap is not renumbered by RENUM' % (parts,), ctx.where(a))
+    rep.floor('all-events.every-key-handler-listed', n_ord, 3, 'orderings of the key handlers')
     # the list of traps that are polled is refreshed from `enabled` before every statement's event check, so that ON / OFF take
     # effect with the next statement
     ps = ctx.fn(INTERP + ':Interpreter.parse')
@@ -229,6 +250,8 @@ def _variants0(ctx):
 
 def variants(ctx):
     return _variants0(ctx) + [
+        mu.Variant('key-11-dropped-from-the-ordered-list', 'break', BE,
+                   lambda tree: mu.replace_expr(mu.find_def(tree, 'BasicEvents.reset'), mu.text_is('self.key[10:29]'), 'self.key[11:29]'), expect='all-events.every-key-handler-listed'),
         mu.Variant('polled-traps-refreshed-once-per-parse', 'break', INTERP,
                    lambda tree: _hoist_refresh(mu.find_def(tree, 'Interpreter.parse')), expect='occurrence.polled-set-refreshed-per-statement'),
         mu.Variant('key-number-defaulted-by-truthiness', 'break', 'pcbasic/basic/basicevents.py',
